@@ -62,6 +62,10 @@ def run_bounded(prop: str, tier: str, seed: int, budget: float) -> dict:
     env["PYTHONDONTWRITEBYTECODE"] = "1"
     with tempfile.TemporaryDirectory(prefix="verif-b-") as tmp:
         out = os.path.join(tmp, "out.json")
+        # every temporary file of the bounded run lives under this private directory (removed afterwards)
+        scratch = os.path.join(tmp, "scratch")
+        os.makedirs(scratch)
+        env["TMPDIR"] = scratch
         cmd = [VENV_PY, "-m", "bounded.common", "run", prop, tier, str(seed), str(budget), out]
         proc = subprocess.run(cmd, cwd=VERIF, env=env, capture_output=True, text=True,
                               timeout=budget * 4 + 600, check=False)
